@@ -21,6 +21,17 @@ CLAIMED = {
          "§4 C08", "Lean theorems on hand model over generated tables + correspondence"),
  "C09": ("proof", "Generated normpdf = documented pdf; integral over ℝ of the per-charge-state cross section = tabulated strength sum x 1e-24 x kappa with kappa=sqrt(pi/PI), |kappa-1|<1e-15 (the package's PI is a 16-digit literal), independent of width; maximum only at the resonance; half maximum at mu±sigma*sqrt(2ln2); |2sqrt(2ln2)/2.35482-1|<1e-7; accumulation loop = filtered sum; non-negative; neutral entry 0 and only charge states 1..Z assigned (kernel-decided over all 12012 rows); identically zero without data (14 elements). Correspondence: tables exact, normpdf and drxs_vec to 1e-11; quadrature monitors for strength and FWHM.",
          "§4 C09", "Lean theorems (Mathlib Gaussian integral) on generated + hand model, exhaustive table facts, correspondence"),
+
+ "C01": ("proof", "Theorems: exp(tJ)N0 starts at N0 and satisfies dN/dt = JN for every t and every matrix J (Mathlib hasDerivAt_exp_smul_const'); continuation exp((s+t)J) = exp(tJ)exp(sJ); k-fold current for t/k; unit conversion j*1e4/e; default start vector, DR iff non-zero width, CNI row; the Jacobian/start vector/time span/method handed to the solver by the model equal the documented matrix (bridged list model -> Matrix for every Z<=105). Correspondence: scipy.integrate.solve_ivp wrapped from outside; captured jac/fun/y0/t_span/kwargs/result arrays vs model over elements x energies (incl. threshold neighbours) x j x DR widths x CNI x start vectors x methods. The integrator itself is outside the model: returned abundances vs expm, two-run continuation and current scaling are monitored with tight tolerances.",
+         "§4 C01", "Lean theorems (matrix exponential) + captured-call correspondence; integrator monitored"),
+ "C02": ("proof", "Theorems: each process matrix is tridiagonal with off-diagonal >= 0, diagonal <= 0; columns sum to exactly 0 iff the boundary cross section vanishes (both directions) and it does for every element (uses C07-C09 theorems); for J with zero column sums the total of exp(tJ)N0 is conserved for all t; for Metzler J and t>=0 it stays >= 0; under CNI the neutral entry is exactly constant; instantiated for the rate matrix of every Z<=105, j>=0, E>0. Correspondence: *_mat bit-exact, captured Jacobian vs model. Undershoot of order atol / conservation to rounding of the NUMERICAL solution are monitored on LSODA/Radau/BDF runs (property of scipy).",
+         "§4 C02", "Lean theorems (Metzler/column-sum matrix exponential) + correspondence; integrator monitored"),
+ "C10": ("proof", "Theorems: matrix entries are exactly the documented arrangement; scan column k = vector form at returned energy k; sampling modes (caller's array / n log-spaced points with first=lo, last=hi, strictly increasing / default grid); the default grid covers every positive binding energy of every element (real-arithmetic proof over the fold, after the D6 fix); generated cxxs = 1.43e-16 q^1.17 IP^-2.76, zero for neutrals, strictly increasing in q, strictly decreasing in IP. Correspondence: *_mat bit-exact, *_energyscan energies to 1e-12 and columns bit-exact vs own vector form, cxxs int/float/scalar/array.",
+         "§4 C10", "Lean theorems on hand model + generated cxxs; correspondence"),
+ "C11": ("proof", "Kernel-decided table theorems over all 105 elements / 5565 rows: lookup round trip by Z, symbol, name (with own A and IP), Z-table = 1..105, unknown identifiers and non-positive mass numbers -> ValueError; one row per charge state, occupations sum to Z-q except the five listed known findings, capacities respected, occupied <=> bound, lowest binding energy strictly increasing; factories: gas/ion formulas, rejection below the minimum, all entries >= documented minima (theorems over ℝ). Correspondence: every identifier + malformed stream, Element.get headers, factories bit-exact. Read-only flags / independence from the database are Python object semantics: monitored.",
+         "§4 C11", "Lean decide +kernel table theorems with explicit exception list + exhaustive lookup correspondence"),
+ "C20": ("proof", "Generated characteristic_potential / herrmann_radius = documented formulas; Herrmann >= Brillouin; monotone in cathode temperature, field, radius; loop exit: returned value is phi0(E+old)(2ln(r_H(E+old)/r_d)-1) with (new-old)/new <= 1e-6 (fixed_point_partial: sign of the quotient / monotone approach monitored); profile continuous at the beam edge, zero at the tube, negative inside, non-decreasing in r; ValueError exactly outside [0,r_d]. Correspondence: methods of ElectronBeam vs generated definitions and loop model incl. identical pass counts.",
+         "§4 C20", "Lean theorems on generated formulas + hand loop model; correspondence"),
 }
 PENDING = {}
 def main():
